@@ -172,6 +172,180 @@ class FloatScreen:
         raise Undefined("operator")
 
 
+class Tape:
+    """The terms compiled once into a topologically ordered instruction list, evaluated per trial in binary64 with plain Python
+    arithmetic (walking z3 ASTs through the Python API for every trial is two orders of magnitude slower).  An undefined value
+    (division by zero, root/log outside the domain, comparison too close to call) is None and propagates, except through the
+    connectives, which are lazy in the logical sense (False and undefined == False, ...)."""
+
+    def __init__(self, terms):
+        self.code = []              # (op, payload, child indexes)
+        self.index = {}
+        self.var_slot = {}          # const id -> instruction index
+        self.roots = [self._compile(t) for t in terms]
+
+    def _compile(self, root):
+        stack = [(root, False)]
+        while stack:
+            t, done = stack.pop()
+            k = t.get_id()
+            if k in self.index:
+                continue
+            if z3.is_int_value(t):
+                self._emit(k, ('c', float(t.as_long()), ()))
+                continue
+            if z3.is_rational_value(t):
+                self._emit(k, ('c', t.numerator_as_long() / t.denominator_as_long(), ()))
+                continue
+            if z3.is_true(t) or z3.is_false(t):
+                self._emit(k, ('c', z3.is_true(t), ()))
+                continue
+            if not z3.is_app(t):
+                self._emit(k, ('u', None, ()))
+                continue
+            ch = t.children()
+            if not done:
+                stack.append((t, True))
+                for c in ch:
+                    if c.get_id() not in self.index:
+                        stack.append((c, False))
+                continue
+            d = t.decl()
+            kind = d.kind()
+            ci = tuple(self.index[c.get_id()] for c in ch)
+            if kind == z3.Z3_OP_UNINTERPRETED:
+                if not ch:
+                    self._emit(k, ('v', k, ()))
+                    self.var_slot[k] = self.index[k]
+                else:
+                    self._emit(k, ('f', d.name(), ci))
+            else:
+                op = _TAPE_OPS.get(kind)
+                self._emit(k, (op, None, ci) if op else ('u', None, ()))
+        return self.index[root.get_id()]
+
+    def _emit(self, k, ins):
+        self.index[k] = len(self.code)
+        self.code.append(ins)
+
+    def run(self, env):
+        import math
+        vals = [None] * len(self.code)
+        for i, (op, pl, ci) in enumerate(self.code):
+            try:
+                if op == 'c':
+                    v = pl
+                elif op == 'v':
+                    v = env.get(pl)
+                    if v is not None and not isinstance(v, bool):
+                        v = float(v)
+                elif op == 'u':
+                    v = None
+                elif op in ('and', 'or', 'not', 'imp', 'ite'):
+                    a = [vals[j] for j in ci]
+                    if op == 'and':
+                        v = False if any(x is False for x in a) else (None if any(x is None for x in a) else True)
+                    elif op == 'or':
+                        v = True if any(x is True for x in a) else (None if any(x is None for x in a) else False)
+                    elif op == 'not':
+                        v = None if a[0] is None else (not a[0])
+                    elif op == 'imp':
+                        v = True if (a[0] is False or a[1] is True) else (None if (a[0] is None or a[1] is None) else False)
+                    else:
+                        v = None if a[0] is None else (a[1] if a[0] else a[2])
+                else:
+                    a = [vals[j] for j in ci]
+                    if any(x is None for x in a):
+                        v = None
+                    elif op == 'add':
+                        v = math.fsum(a)
+                    elif op == 'sub':
+                        v = a[0] - math.fsum(a[1:])
+                    elif op == 'neg':
+                        v = -a[0]
+                    elif op == 'mul':
+                        v = 1.0
+                        for x in a:
+                            v *= x
+                    elif op == 'div':
+                        v = None if abs(a[1]) < 1e-200 else a[0] / a[1]
+                    elif op == 'pow':
+                        v = a[0] ** a[1]
+                        if isinstance(v, complex):
+                            v = None
+                    elif op == 'id':
+                        v = a[0]
+                    elif op == 'floor':
+                        v = float(math.floor(a[0]))
+                    elif op in ('le', 'lt', 'ge', 'gt'):
+                        x, y = a
+                        if x == y:
+                            v = op in ('le', 'ge')
+                        elif abs(x - y) <= 1e-7 * max(abs(x), abs(y), 1.0):
+                            v = None
+                        else:
+                            v = {'le': x < y, 'lt': x < y, 'ge': x > y, 'gt': x > y}[op]
+                    elif op == 'eq':
+                        x, y = a
+                        if isinstance(x, bool) or isinstance(y, bool):
+                            v = bool(x) == bool(y)
+                        elif x == y or abs(x - y) <= 1e-9 * max(abs(x), abs(y), 1.0):
+                            v = True
+                        elif abs(x - y) <= 1e-5 * max(abs(x), abs(y), 1.0):
+                            v = None
+                        else:
+                            v = False
+                    elif op == 'distinct':
+                        v = True
+                        for p_ in range(len(a)):
+                            for q_ in range(p_ + 1, len(a)):
+                                if abs(a[p_] - a[q_]) <= 1e-7 * max(abs(a[p_]), abs(a[q_]), 1.0):
+                                    v = None if a[p_] != a[q_] else False
+                    elif op == 'f':
+                        v = _float_uf(pl, a)
+                    else:
+                        v = None
+            except (OverflowError, ValueError, ZeroDivisionError, TypeError):
+                v = None
+            vals[i] = v
+        return vals
+
+
+def _float_uf(nm, a):
+    import math
+    x = a[0]
+    if nm == 'sqrt':
+        return math.sqrt(x) if x >= 0 else None
+    if nm.startswith('root') and nm[4:].isdigit():
+        return x ** (1.0 / int(nm[4:])) if x >= 0 else None
+    if nm == 'exp':
+        return math.exp(x)
+    if nm in ('ln', 'log10', 'log2'):
+        return {'ln': math.log, 'log10': math.log10, 'log2': math.log2}[nm](x) if x > 0 else None
+    if nm == 'pow10':
+        return 10.0 ** x
+    if nm == 'cos':
+        return math.cos(x)
+    if nm == 'sin':
+        return math.sin(x)
+    if nm == 'qfunc':
+        return 0.5 * math.erfc(x / math.sqrt(2))
+    if nm == 'erfc':
+        return math.erfc(x)
+    if nm in ('pow', 'powi'):
+        v = x ** a[1]
+        return None if isinstance(v, complex) else v
+    if nm == 'pow2i':
+        return 2.0 ** x
+    return None
+
+
+_TAPE_OPS = {z3.Z3_OP_ADD: 'add', z3.Z3_OP_SUB: 'sub', z3.Z3_OP_UMINUS: 'neg', z3.Z3_OP_MUL: 'mul', z3.Z3_OP_DIV: 'div',
+             z3.Z3_OP_POWER: 'pow', z3.Z3_OP_TO_REAL: 'id', z3.Z3_OP_TO_INT: 'floor', z3.Z3_OP_ITE: 'ite', z3.Z3_OP_LE: 'le',
+             z3.Z3_OP_LT: 'lt', z3.Z3_OP_GE: 'ge', z3.Z3_OP_GT: 'gt', z3.Z3_OP_EQ: 'eq', z3.Z3_OP_DISTINCT: 'distinct',
+             z3.Z3_OP_AND: 'and', z3.Z3_OP_OR: 'or', z3.Z3_OP_NOT: 'not', z3.Z3_OP_IMPLIES: 'imp'}
+
+
 class Evaluator:
     def __init__(self, env):
         self.env = env              # z3 const id -> value
@@ -393,8 +567,12 @@ def free_consts(terms):
     return out
 
 
+_ALLOWED_CACHE = {}
 SQUARES = [Fraction(x) for x in ("1", "4", "1/4", "9/4", "9", "1/9", "16", "25/4", "49/16")]
+BOTH = None
 PLAIN = [Fraction(x) for x in ("1", "2", "-1", "1/2", "3", "-2", "3/2", "-1/2", "5", "-3", "2/3", "7/4", "-5/3", "1/3", "4")]
+
+BOTH = SQUARES + PLAIN
 
 
 def search(pc, goal, trials=300, seed=0):
@@ -428,23 +606,45 @@ def search(pc, goal, trials=300, seed=0):
             own.setdefault(tv[0], []).append(t)
     EXTRA = [Fraction(x) for x in ("1/2", "1/4", "3/4", "1/16", "9/16", "1/100", "99/100", "0", "100", "1000", "-100", "1/1000", "36", "64")]
 
+    allowed = {}
+    pref_cache = {}
+
     def draw(v, pool):
         cons = own.get(v.get_id())
         if not cons:
             return rnd.choice(pool)
-        cands = list(pool) + EXTRA
-        rnd.shuffle(cands)
-        for val in cands:
-            try:
-                e = Evaluator({v.get_id(): val})
-                if all(e.ev(t) for t in cons):
-                    return val
-            except (Undefined, ZeroDivisionError, OverflowError, ValueError):
-                continue
-        return rnd.choice(pool)
+        k = v.get_id()
+        ck = (k, frozenset(t.get_id() for t in cons))
+        if k not in allowed and ck in _ALLOWED_CACHE:
+            allowed[k] = _ALLOWED_CACHE[ck]
+        if k not in allowed:
+            # the values (of all pools) satisfying the variable's own constraints - computed once per search
+            ok = []
+            base = (SQUARES + PLAIN + EXTRA) if not z3.is_int(v) else [Fraction(x) for x in (0, 1, 2, 3, 4, -1, 5, 7, 10, 100)]
+            for val in base:
+                try:
+                    e = Evaluator({k: val})
+                    if all(e.ev(t) for t in cons):
+                        ok.append(val)
+                except (Undefined, ZeroDivisionError, OverflowError, ValueError):
+                    continue
+            allowed[k] = ok
+            if len(_ALLOWED_CACHE) < 100000:
+                _ALLOWED_CACHE[ck] = ok
+        ok = allowed[k]
+        if not ok:
+            return rnd.choice(pool)
+        pk = (k, id(pool))
+        if pk not in pref_cache:
+            ps = set(pool)
+            pref_cache[pk] = [x for x in ok if x in ps]
+        pref = pref_cache[pk]
+        return rnd.choice(pref if pref and rnd.random() < 0.8 else ok)
+    tape = Tape(list(pc) + [goal])
+    defs_tape = Tape(list(defs.values())) if defs else None
     for trial in range(trials):
         env = {}
-        pool = SQUARES if trial % 3 == 0 else (PLAIN if trial % 3 == 1 else SQUARES + PLAIN)
+        pool = SQUARES if trial % 3 == 0 else (PLAIN if trial % 3 == 1 else BOTH)
         for v in free:
             if z3.is_bool(v):
                 env[v.get_id()] = rnd.random() < 0.5
@@ -467,18 +667,14 @@ def search(pc, goal, trials=300, seed=0):
                     break
             if pending:
                 continue
-            fs = FloatScreen(env)
+            vals = tape.run(env)
             if _DEBUG and trial == 0:
-                for t in pc:
-                    try:
-                        ok = fs.ev(t)
-                    except Exception as ex:
-                        ok = repr(ex)
-                    if ok is not True:
-                        print("   numeval: constraint", ok, str(t)[:200].replace("\n", " "), flush=True)
-            if not all(fs.ev(t) for t in pc):
+                for t, ri in zip(pc, tape.roots):
+                    if vals[ri] is not True:
+                        print("   numeval: constraint", vals[ri], str(t)[:200].replace("\n", " "), flush=True)
+            if not all(vals[ri] is True for ri in tape.roots[:-1]):
                 continue
-            if fs.ev(goal):
+            if vals[tape.roots[-1]] is not False:
                 continue
             ev = Evaluator(env)                 # confirm the candidate exactly / with 60 digits
             if not all(ev.ev(t) for t in pc):
